@@ -39,7 +39,7 @@ def execute(case):
         order = case["order"]
         rfn = os.path.join(d, "read.csv")
         wfn = os.path.join(d, "write.csv")
-        write_trace(rfn, order, case["rows_r"])
+        write_trace(rfn, order, case.get("rows_r", []))
         has_w = bool(case.get("rows_w"))
         if has_w:
             write_trace(wfn, order, case["rows_w"])
@@ -68,6 +68,29 @@ def execute(case):
                     res.append({"cap": cap, "read": int(a.get("read", 0)), "write": int(a.get("write", 0)), "overflows": int(ov), "exc": "ok"})
                 except BaseException as ex:  # noqa: B036
                     res.append({"cap": cap, "read": -1, "write": -1, "overflows": -1, "exc": "err:" + type(ex).__name__})
+            out["res"] = res
+            out["line_sz"] = line_sz
+            out["files_same"] = 1 if sorted(os.listdir(d)) == before else 0
+        elif case["kind"] == "buffet2":
+            # tensor A[M, K]: its M payloads (32 bit) and its K payloads (64 bit) are both bound, each with its own trace; line of 128 bits
+            t = Tensor(rank_ids=["M", "K"], shape=[case["shape"]] * 2, name="A")
+            fm = Format(t, {"M": {"format": "U", "pbits": 32}, "K": {"format": "C", "cbits": 32, "pbits": 64}})
+            line_sz = 128
+            mfn, kfn = os.path.join(d, "m.csv"), os.path.join(d, "k.csv")
+            write_trace(mfn, ["M"], case["parts"][0]["rows"])
+            write_trace(kfn, ["M", "K"], case["parts"][1]["rows"])
+            fns = {("A", "M", "payload", "read"): mfn, ("A", "K", "payload", "read"): kfn}
+            bm = {"tensor": "A", "rank": "M", "type": "payload", "evict-on": "root"}
+            bk = {"tensor": "A", "rank": "K", "type": "payload", "evict-on": case["evk"]}
+            before = sorted(os.listdir(d))
+            res = []
+            for blist in ([bk, bm], [bm, bk]):
+                try:
+                    with contextlib.redirect_stdout(io.StringIO()):
+                        bits, ov = Traffic.buffetTraffic([dict(b) for b in blist], {"A": fm}, dict(fns), 64 * line_sz, line_sz)
+                    res.append({"cap": 64 * line_sz, "read": int(bits.get("A", {}).get("read", 0)), "write": 0, "overflows": int(ov), "exc": "ok"})
+                except BaseException as ex:  # noqa: B036
+                    res.append({"cap": 0, "read": -1, "write": -1, "overflows": -1, "exc": "err:" + type(ex).__name__})
             out["res"] = res
             out["line_sz"] = line_sz
             out["files_same"] = 1 if sorted(os.listdir(d)) == before else 0
